@@ -224,7 +224,9 @@ fn parse_op(s: &str) -> Option<Op> {
 
 #[derive(Clone, Debug, PartialEq)]
 pub enum Kind {
-    Mem { policy: EvictionPolicy, max_entries: usize, max_bytes: Option<usize> },
+    /// `cleanup`: built with `new_with_cleanup` (what `MultiLayerCacheImpl` uses for its memory
+    /// layer) on a runtime with a paused clock, like the disk cache with background tasks
+    Mem { policy: EvictionPolicy, max_entries: usize, max_bytes: Option<usize>, cleanup: bool },
     /// `background`: built with `new_with_background_tasks` (what `MultiLayerCacheImpl` uses
     /// for its disk layers) on a runtime with a paused clock; `max_files` is only enforced by
     /// the background cleanup
@@ -626,11 +628,17 @@ fn value_for(seed: u64, step: usize, size: u32) -> Bytes {
 
 fn open_cache(kind: &Kind, dir: &Path) -> Result<Box<dyn AsyncCache<TKey>>, String> {
     match kind {
-        Kind::Mem { policy, max_entries, max_bytes } => {
+        Kind::Mem { policy, max_entries, max_bytes, cleanup } => {
             let mut cfg = MemoryCacheConfig::new().with_max_entries(*max_entries).with_eviction_policy(policy.clone());
             cfg.max_memory_bytes = *max_bytes;
             cfg.default_ttl = None; // put() then uses the built-in 1 h
-            MemoryCache::<TKey>::new(cfg).map(|c| Box::new(c) as Box<dyn AsyncCache<TKey>>).map_err(|e| e.to_string())
+            if *cleanup {
+                // the cleanup task ticks every CLEANUP_INTERVAL of the paused clock (`Op::Tick`)
+                cfg.cleanup_interval = CLEANUP_INTERVAL;
+                MemoryCache::<TKey>::new_with_cleanup(cfg).map(|c| Box::new(c) as Box<dyn AsyncCache<TKey>>).map_err(|e| e.to_string())
+            } else {
+                MemoryCache::<TKey>::new(cfg).map(|c| Box::new(c) as Box<dyn AsyncCache<TKey>>).map_err(|e| e.to_string())
+            }
         }
         Kind::Disk { subdirs, background, max_files } => {
             let mut cfg = DiskCacheConfig::new(dir).with_max_files(*max_files).with_subdirectories(*subdirs, if *subdirs { 2 } else { 0 });
@@ -689,7 +697,7 @@ impl Subject {
     }
 
     fn background(&self) -> bool {
-        matches!(self.kind, Kind::Disk { background: true, .. })
+        matches!(self.kind, Kind::Disk { background: true, .. } | Kind::Mem { cleanup: true, .. })
     }
 
     fn bound_clause_applies(&self) -> bool {
@@ -983,11 +991,12 @@ impl SeqSubject for Subject {
 
     fn config_name(&self) -> String {
         match &self.kind {
-            Kind::Mem { policy, max_entries, max_bytes } => format!(
-                "mem(policy={},max_entries={},max_bytes={})",
+            Kind::Mem { policy, max_entries, max_bytes, cleanup } => format!(
+                "mem(policy={},max_entries={},max_bytes={}{})",
                 policy_name(policy),
                 max_entries,
-                max_bytes.map_or("none".to_string(), |b| b.to_string())
+                max_bytes.map_or("none".to_string(), |b| b.to_string()),
+                if *cleanup { ",cleanup=true" } else { "" }
             ),
             Kind::Disk { subdirs, background: false, .. } => format!("disk(subdirs={subdirs})"),
             Kind::Disk { subdirs, background: true, max_files } => format!("disk(subdirs={subdirs},background=true,max_files={max_files})"),
@@ -996,7 +1005,7 @@ impl SeqSubject for Subject {
 
     fn sig_config(&self) -> String {
         match &self.kind {
-            Kind::Mem { policy, max_entries, max_bytes } => {
+            Kind::Mem { policy, max_entries, max_bytes, .. } => {
                 let pc = match policy {
                     EvictionPolicy::Lru | EvictionPolicy::Lfu | EvictionPolicy::Fifo => "ordered",
                     EvictionPolicy::Random => "random",
@@ -1163,7 +1172,7 @@ fn mem_subject(policy: EvictionPolicy, max_entries: usize, max_bytes: Option<usi
     let sizes_ttl0 = if rich { vec![1, 100] } else { vec![100] };
     let sizes_hour = if rich { vec![1] } else { vec![] };
     Subject {
-        kind: Kind::Mem { policy, max_entries, max_bytes },
+        kind: Kind::Mem { policy, max_entries, max_bytes, cleanup: false },
         keys: (0..nkeys).collect(),
         sizes,
         sizes_ttl0,
@@ -1182,6 +1191,16 @@ fn mem_ttl_subject(seed: u64) -> Subject {
     s.sizes = vec![1];
     s.sizes_ttl0 = vec![1];
     s.sizes_max = vec![1, 100];
+    s
+}
+
+/// Memory cache with its cleanup task: the cleanup interval may elapse between operations.
+fn mem_cleanup_subject(policy: EvictionPolicy, max_entries: usize, max_bytes: Option<usize>, nkeys: u8, seed: u64) -> Subject {
+    let mut s = mem_subject(policy, max_entries, max_bytes, nkeys, seed, false);
+    if let Kind::Mem { cleanup, .. } = &mut s.kind {
+        *cleanup = true;
+    }
+    s.sizes_ttl0 = vec![1, 100];
     s
 }
 
@@ -1228,14 +1247,14 @@ pub fn run(tier: Tier, seed: u64) -> i32 {
     disable_sync_command();
     let rep = Report::new("C10", tier, seed, Level::ModelChecking);
     rep.set_rule(
-        "every history up to the depth bound over {get, put, put_with_ttl(0), put_with_ttl(1h), put_with_ttl(Duration::MAX) (TTL-extreme configurations), remove, contains, clear (+reopen for disk, +'the cleanup interval elapses' for the disk cache with background tasks)} × keys × value-size classes per configuration (max_entries up to usize::MAX), each executed on a fresh real MemoryCache/DiskCache in lock-step with a bounded-map model (set of possible resident sets); no state merging (counters are hidden state), so states = histories; size()/stats() and a get on every key are evaluated at the end of every history (every prefix is a history); every history with ≥1 operation is a distinct non-trivial case",
+        "every history up to the depth bound over {get, put, put_with_ttl(0), put_with_ttl(1h), put_with_ttl(Duration::MAX) (TTL-extreme configurations), remove, contains, clear (+reopen for disk, +'the cleanup interval elapses' for the disk cache with background tasks and the memory cache with its cleanup task)} × keys × value-size classes per configuration (max_entries up to usize::MAX), each executed on a fresh real MemoryCache/DiskCache in lock-step with a bounded-map model (set of possible resident sets); no state merging (counters are hidden state), so states = histories; size()/stats() and a get on every key are evaluated at the end of every history (every prefix is a history); every history with ≥1 operation is a distinct non-trivial case",
     );
     rep.assume("reference model: per key the latest successful put since the last remove/clear (value, ttl class) + the set of possible resident sets; a put at a limit (entries ≥ max, bytes ≥ max, or the put would exceed either) may evict any subset");
     rep.assume("ttl classes: ttl 0 is expired at the next call (Instant/SystemTime are monotone non-decreasing), ttl 1 h / default never expires during a run");
     rep.assume("size() and stats() are read-only (atomic loads, directory scan) — read from the code; they are observers after every history rather than alphabet members");
     rep.assume("MemoryCache byte usage is the sum of value lengths (size_bytes = value.len()), the cache's own definition");
     rep.assume("DiskCache::new starts no background task; disk files live on tmpfs; crash behaviour is not this check's subject");
-    rep.assume("disk cache with background tasks (new_with_background_tasks): runs on a current-thread runtime whose tokio clock is paused, so the cleanup task runs exactly when the history's `tick` advances the clock past cleanup_interval (it may run twice per tick; it is idempotent) and never inside another operation; the sync task's sync(1) spawn fails (PATH is emptied for this process) and has no influence on the cache; a tick may evict any entries when more than max_files are resident");
+    rep.assume("memory cache with its cleanup task (new_with_cleanup) and disk cache with background tasks (new_with_background_tasks): run on a current-thread runtime whose tokio clock is paused, so the cleanup task runs exactly when the history's `tick` advances the clock past cleanup_interval (it may run twice per tick; it is idempotent) and never inside another operation; the sync task's sync(1) spawn fails (PATH is emptied for this process) and has no influence on the cache; a tick may evict any entries when more than max_files are resident");
     rep.assume("an under-count (size()/stats() below what the settling gets return) by an instance created on a filled directory is reported once per kind, with the smallest history over all plain disk configurations, and such histories are still extended; every other under-count is an ordinary violation");
     rep.assume(&format!("a violation is reported only if {REPEATS_EVICTING} (memory cache, some put ran at a limit) / {REPEATS_PLAIN} (otherwise) fresh executions of the same history violate the same clause at the same step (eviction victims are not under the harness's control); every later query for that history executes it once more"));
 
@@ -1262,8 +1281,12 @@ pub fn run(tier: Tier, seed: u64) -> i32 {
             subjects.push((disk_ttl_subject(false, seed), 4));
             subjects.push((disk_background_subject(false, DISK_MAX_FILES, 2, seed), 4));
             subjects.push((disk_background_subject(true, 1, 2, seed), 4));
+            // the memory cache with its cleanup task
+            subjects.push((mem_cleanup_subject(Lru, 2, None, 3, seed), 4));
         }
         Tier::Thorough => {
+            subjects.push((mem_cleanup_subject(Lru, 2, None, 3, seed), 5));
+            subjects.push((mem_cleanup_subject(Fifo, UNLIMITED_ENTRIES, Some(150), 3, seed), 4));
             // the whole grid at depth 4
             for policy in [Lru, Lfu, Fifo, Random] {
                 for me in [1usize, 2, 3, UNLIMITED_ENTRIES, usize::MAX] {
@@ -1366,6 +1389,8 @@ pub fn run(tier: Tier, seed: u64) -> i32 {
     if rep.outcomes() < 50 {
         rep.machinery_error("vacuous exploration: fewer than 50 distinct observation logs");
     }
+    // a TTL that ends in the middle of a history (real time, judged one-sidedly)
+    crate::props::c10_expiry::run_scripts(tier, &rep);
     rep.finish()
 }
 
@@ -1448,6 +1473,7 @@ fn parse_config(cfg: &str) -> Option<Kind> {
                 "none" => None,
                 s => Some(s.parse().ok()?),
             },
+            cleanup: kv.get("cleanup").is_some_and(|v| v == "true"),
         })
     } else if cfg.starts_with("disk(") {
         Some(Kind::Disk {
@@ -1466,6 +1492,9 @@ fn parse_config(cfg: &str) -> Option<Kind> {
 /// Replay a witness: `witness.config` + `witness.core_ops` (Debug form of the ops).
 pub fn replay(w: &serde_json::Value) -> i32 {
     disable_sync_command();
+    if let Some(rc) = crate::props::c10_expiry::replay(w) {
+        return rc;
+    }
     let cfg = w["witness"]["config"].as_str().unwrap_or("");
     let Some(kind) = parse_config(cfg) else {
         println!("MACHINERY-ERROR: cannot parse configuration {cfg:?}");
